@@ -98,6 +98,21 @@ def check(fd, field, nodata, fdtype=np.int64, nprint=100, cap=-1,
     if field is not None and not np.array_equal(np.asarray(ta.data), f0,
                                                 equal_nan=True):
         raise Violation("values of the grid to accumulate were modified")
+    # the same grids used again after the field was edited in place
+    if field is not None and field.dtype.kind == "f":
+        ta.data[:] = ta.data * 2.0 + 1.0
+        acc2 = np.asarray(accumulate(g, ta, nprint=0).data,
+                          dtype=np.float64).ravel()
+        f2 = f * 2.0 + 1.0
+        for c in range(N):
+            if down[c] >= 0:
+                e2 = sum(f2[u] for u in range(N) if c in chains[u])
+                if not abs(acc2[c] - e2) <= 1e-9 * max(1.0,
+                                                       np.abs(f2).sum()):
+                    raise Violation(
+                        f"accumulate called again after the field grid was "
+                        f"edited in place: cell {c} {acc2[c]!r}, expected "
+                        f"{e2!r}; grid {fd.tolist()}")
     nup = max(len([u for u in range(N) if c in chains[u] and u != c])
               for c in range(N))
     return len(set(f.tolist())) > 1 and nup >= 2
